@@ -48,7 +48,7 @@ def run(ctx):
     r2 = ctx.tlc('EmulatedOps', 'EmulatedOps_len2.cfg', workers=1, simulate=(40 if quick else 600), depth=40, timeout=1800, deadlock=True)
     r3 = ctx.tlc('EmulatedOps', 'EmulatedOps_len3.cfg', workers=1, simulate=(40 if quick else 600), depth=60, timeout=1800, deadlock=True)
     rt = ctx.tlc('EmulatedOps', 'EmulatedOps_targets.cfg', workers=1, timeout=900)
-    if len(rt.beh) < 12:
+    if len(rt.beh) < 14:
         raise vlib.Infra('targeted programs missing: %d' % len(rt.beh))
     seen, behs = set(), []
     for b in rt.beh + one + r2.beh + r3.beh:
